@@ -149,6 +149,11 @@ def main():
     C.write_evidence(pid, a.tier, seed, cov, time.time() - t0, nviol, P.assumptions)
     if os.environ.get('VERIF_VERBOSE'):
         print('\n'.join(log))
+    bykey = {}
+    for (key, desc, payload) in violations:
+        bykey[key] = bykey.get(key, 0) + 1
+    if bykey:
+        print(f'[{pid}] violations by key: {bykey}')
     print(f'[{pid}] tier={a.tier} seed={seed} obligations={obligations} discharged={cov["discharged"]} '
           f'evaluations={stats["evaluations"]} nontrivial={stats["distinct_nontrivial"]} violations={nviol} wall={time.time() - t0:.1f}s')
     sys.exit(rc)
